@@ -71,7 +71,7 @@ def setup(ctx):
 
 def gen_cases(ctx):
     rng = ctx.rng
-    n = ctx.n(5000, 90000)
+    n = ctx.n(20000, 160000)
     for i in range(n):
         cls = CLASS_NAMES[i % 4]
         alpha = rng.choice([gen.TINY, gen.TINY, (6, 1, 8)])
